@@ -243,7 +243,13 @@ def check(tier, seed):
                 took_small = last_s.get("escape_small", 0) > 0
                 if (took_large or took_small) and not flag:
                     rep.violate(f"escape-taken-although-flag-off:{meth}", f"{meth}: an unmet design was returned with continue_if_design_unmet=False", wit)
-                if exp == "too-large" or took_large:
+                # a run whose returned design meets the limits after the closing sizing is not an "unmet" outcome, whatever the search
+                # printed on the way (a shared system flow of a few mL/s per borehole makes the excess non-monotone in the height: the
+                # search sees an excess at maximum height, the sizing finds a height that meets the limits) - thorough tier, seed 1
+                feasible_after_sizing = (rec.get("resim") or {}).get("excess", 1.0) <= 1e-3 and f["hmin"] + 1e-9 < f["H"] < f["hmax"] - 1e-9
+                if feasible_after_sizing and (took_large or exp == "too-large"):
+                    rep.count("escape_message_but_feasible_design_after_sizing")
+                elif exp == "too-large" or took_large:
                     ok_counts = {last_s["counts"][i] for i in allowed_last(last_s["counts"], last_s["cap"])}
                     if not took_large or f["nbh"] not in ok_counts or abs(f["H"] - f["hmax"]) > 1e-9:
                         rep.violate(f"unmet-large-not-largest-at-max-height:{meth}", f"{meth}: evaluations {last_s['evals'][:3]}; returned {f['nbh']} bh at {f['H']} m; largest allowed {sorted(ok_counts)} at {f['hmax']} m", wit)
@@ -288,11 +294,16 @@ def check(tier, seed):
             if meth in NESTED and flag and PC.escaped(rec):
                 ev_all = [e[2] for s in searches for e in s["evals"]]
                 first_counts = searches[1]["counts"] if len(searches) > 1 else searches[0]["counts"]
+                # the smallest field of any one candidate list (polygon-constrained lists do not all start with one borehole)
+                smallest_ok = {min(s_["counts"]) for s_ in searches if s_["counts"]} | {min(first_counts)}
                 if ev_all and max(ev_all) < 0:
                     rep.count("nested_unmet_small_checked")
-                    if f["nbh"] != min(first_counts) or abs(f["H"] - f["hmin"]) > 1e-9:
+                    if f["nbh"] not in smallest_ok or abs(f["H"] - f["hmin"]) > 1e-9:
                         rep.violate("nested-search-escape-small-returns-non-smallest", f"{meth}: flag on, every evaluated excess < 0, returned {f['nbh']} bh at {f['H']} m instead of the smallest candidate ({min(first_counts)}) at {f['hmin']} m", wit)
-                if ev_all and min(ev_all) > 0:
+                feasible_after_sizing_n = (rec.get("resim") or {}).get("excess", 1.0) <= 1e-3 and f["hmin"] + 1e-9 < f["H"] < f["hmax"] - 1e-9
+                if ev_all and min(ev_all) > 0 and feasible_after_sizing_n:
+                    rep.count("escape_message_but_feasible_design_after_sizing")
+                elif ev_all and min(ev_all) > 0:
                     rep.count("nested_unmet_large_checked")
                     biggest = set()
                     for s_ in searches:
